@@ -160,7 +160,26 @@ def judge_huge(tok, tail, cfg, chunk, bufsize, end):
     return out
 
 
+def judge_session(n, cfg, chunk, bufsize, end):
+    """One long connection: n 4 KiB frames (more than 64 KiB consumed), then N1, Uack, N1 delivered in fixed chunks."""
+    T = streams.TOKENS
+    data = T["U4096"][2] * n + T["N1"][2] + T["Uack"][2] + T["N1"][2]
+    want = item_sigs(run_reader(data, cfg))
+    c = dict(cfg); c["bufsize"] = bufsize
+    r = run_reader(data, c, stream=streams.ChunkSocket(data, chunk, end))
+    what = f"session n={n} chunk={chunk} bufsize={bufsize} end={end}"
+    if r.raised is not None:
+        return [(f"socket_read_raises|{type(r.raised).__name__}|long_session", f"{what}: {r.raised}"[:200])]
+    if r.horizon:
+        return [("socket_read_does_not_end|long_session", what)]
+    if item_sigs(r) != want:
+        return [(f"items_differ_from_file_stream|{'missing_item' if len(r.items) < len(want) else 'other'}|long_session", f"{what}: {len(r.items)} vs {len(want)} items")]
+    return []
+
+
 def replay_case(case):
+    if case.get("session"):
+        return judge_session(case["session"][0], case["cfg"], *case["session"][1:])
     if case.get("huge"):
         return judge_huge(*case["huge"][:2], case["cfg"], *case["huge"][2:])
     data = bytes.fromhex(case["stream"])
@@ -186,6 +205,20 @@ def eval_block(block, acc):
                             acc.outcomes[("huge", tok, bufsize)] += 1
                             for key, detail in out:
                                 acc.violation(key, {"huge": [tok, tail, chunk, bufsize, end], "cfg": cfg}, detail)
+        return
+    if kind == "session":
+        n = block[1]
+        for cfg in CFGS[:2]:
+            # fixed chunks, and two-part deliveries whose boundary lies 1, 20 or 51 bytes into the sentence after the big frames
+            for chunk in (7, 64, 1000, 4096, n * 4104 + 1, n * 4104 + 20, n * 4104 + 51):
+                for bufsize in (64, 4096, 1 << 20):
+                    for end in ("close", "timeout"):
+                        out = judge_session(n, cfg, chunk, bufsize, end)
+                        acc.evaluations += 1
+                        acc.transitions += 1
+                        acc.outcomes[("session", n, bufsize)] += 1
+                        for key, detail in out:
+                            acc.violation(key, {"session": [n, chunk, bufsize, end], "cfg": cfg}, detail)
         return
     if kind == "bytes":
         datas = list(streams.iter_block(tuple(block[1]) if block[1][0] == "short" else ("pre", block[1][1], block[1][2])))
@@ -230,6 +263,7 @@ def run_tier(tier, t0):
         blocks += [("long", i, BUFSIZES, ENDS) for i in range(len(LONG))]
         depth = "3 (all bufsizes/ends), 4 (bufsize 1,3,4096; close,timeout)"
     blocks += [("huge", t) for t in HUGE]
+    blocks += [("session", n) for n in (15, 16, 17)]  # 60, 64 and 68 KiB consumed before the last three frames
     acc = engine.sweep(blocks, eval_block)
     engine.finish(
         PROP, tier, acc, t0, replay_case,
